@@ -87,6 +87,31 @@ def planKeydoor (s : State) : List Action :=
   lPlan o s.agent.pos stand ++ (turnsTo o face ++ (.pickNDrop :: (lPlan face stand ⟨door.y, door.x - 1⟩ ++
     (turnsTo face .R ++ (.actuate :: (walk .R .R 2 ++ (lPlan .R ⟨door.y, door.x + 1⟩ (firstExit g) ++ [])))))))
 
+/-- the two monotone ways through a walled room from the top-left to the bottom-right interior
+corner: down the first column then along the last row (`A`), or along the first row then down the
+last column (`B`) -/
+def onPathA (h w : Int) (q : Pos) : Bool :=
+  (q.x == 1 && decide (1 ≤ q.y) && decide (q.y ≤ h - 2)) || (q.y == h - 2 && decide (1 ≤ q.x) && decide (q.x ≤ w - 2))
+def onPathB (h w : Int) (q : Pos) : Bool :=
+  (q.y == 1 && decide (1 ≤ q.x) && decide (q.x ≤ w - 2)) || (q.x == w - 2 && decide (1 ≤ q.y) && decide (q.y ≤ h - 2))
+
+/-- `teleport`: take a way without telepods if there is one; otherwise each way holds one telepod:
+walk `A` into its telepod, come out of the other one on `B`, finish along `B` -/
+def planTeleport (s : State) : List Action :=
+  let g := s.grid
+  let h : Int := g.h
+  let w : Int := g.w
+  let tps := g.find fun o => o.isKind .telepod
+  let ex := firstExit g
+  let p := s.agent.pos
+  let o := s.agent.o
+  if tps.all fun t => !onPathA h w t then lPlan o p ex
+  else if tps.all fun t => !onPathB h w t then lPlanH o p ex
+  else
+    let tA := (tps.filter (onPathA h w)).headD p
+    let tB := (tps.filter fun t => t != tA).headD p
+    lPlan o p tA ++ (lPlanH o tB ex ++ [])
+
 /-! ### breadth-first certificates (grids that do not change: no pick, door, box, obstacle) -/
 
 /-- one BFS layer: expand every frontier state by the four moves, keep unseen agent positions -/
